@@ -67,6 +67,10 @@ def cases(draw, tier):
             opts += ["adjoint", "adjoint", "adjoint_fn"]
         if len(t) <= 1:
             opts += ["action", "action", "action_fn", "action_adj"]
+        if len(t) >= 1:
+            opts += ["arg_identity", "coarg_identity"]
+        if len(t) == 2:
+            opts += ["action_zero2"]
         if len(t) == 0:
             opts += ["coef_left"]
         k = draw(st.sampled_from(opts))
@@ -82,6 +86,15 @@ def cases(draw, tier):
             return ["fsum", comps]
         if k == "scale":
             return ["sum", [[weight(), gen(t, d)]]]
+        if k == "arg_identity":
+            # Action(T, Argument) : an Argument V -> V on the right is the identity
+            return ["arg_identity", gen(t, d)]
+        if k == "coarg_identity":
+            return ["coarg_identity", gen(t, d)]
+        if k == "action_zero2":
+            # composition of two 2-forms whose right factor is the zero 2-form: zero (t[0], t[1])
+            j = draw(st.integers(0, 2))
+            return ["action_zero2", gen((t[0], j), d), ["zero", [j, t[1]]]]
         if k == "adjoint":
             return ["adjoint", gen((t[1], t[0]), d)]
         if k == "adjoint_fn":
@@ -242,6 +255,20 @@ class Model:
             u = self.coef(r[2][1], r[2][2])
             vec = self.coefvec[repr(u)][1]
             return (ufl.Action(o, u) if k == "action" else ufl.action(o, u)), np.tensordot(T, vec, axes=([T.ndim - 1], [0])), deps | {repr(u)}
+        if k in ("arg_identity", "coarg_identity"):
+            o, T, deps = self.build(r[1])
+            if isinstance(o, (int, float)) or not o.arguments():
+                return o, T, deps
+            args = sorted(o.arguments(), key=lambda a: a.number())
+            if k == "arg_identity":
+                ident = ufl.Argument(args[-1].ufl_function_space(), args[-1].number())
+                return ufl.Action(o, ident), T, deps
+            ident = ufl.Coargument(args[0].ufl_function_space().dual(), 0)
+            return ufl.Action(ident, o), T, deps
+        if k == "action_zero2":
+            o, T, deps = self.build(r[1])
+            z, Tz, _ = self.build(r[2])
+            return ufl.Action(o, z), np.zeros((T.shape[0], Tz.shape[1])), set()
         if k == "coef_left":
             u = self.coef(r[1][1], r[1][2])
             o, T, deps = self.build(r[2])
@@ -298,7 +325,10 @@ def check_case(case):
 
         raise Violation(f"well-typed composition raised {type(ex).__name__}: {str(ex)[:300]}", {"kind": "raised:" + exc_bucket(ex)})
     T = np.asarray(T, dtype=float)
-    got = np.asarray(M.evaluate(obj), dtype=float)
+    try:
+        got = np.asarray(M.evaluate(obj), dtype=float)
+    except RecursionError:
+        raise Violation("the object ufl returned contains itself (an operand was re-initialised in place)", {"kind": "cycle"})
     if got.shape != T.shape:
         raise Violation(f"the object ufl returned denotes a tensor of shape {got.shape}, the composition one of shape {T.shape}", {"kind": "shape"})
     scale = max(1.0, float(np.max(np.abs(T), initial=0)))
@@ -332,5 +362,8 @@ def check_case(case):
         labels.append("action")
     if acc.get("adjoint") or acc.get("adjoint_fn"):
         labels.append("adjoint")
-    ncomp = sum(acc.get(k, 0) for k in ("sum", "fsum", "action", "action_fn", "adjoint", "adjoint_fn", "coef_left"))
+    if acc.get("arg_identity") or acc.get("coarg_identity"):
+        labels.append("identity-argument")
+    ncomp = sum(acc.get(k, 0) for k in ("sum", "fsum", "action", "action_fn", "adjoint", "adjoint_fn", "coef_left", "arg_identity",
+                                        "coarg_identity", "action_zero2"))
     return {"nontrivial": ncomp >= 2 and bool(np.max(np.abs(T), initial=0) > 1e-12) and "formsum" in labels, "labels": labels}
